@@ -111,6 +111,7 @@ inductive Stmt where
   | loop (fuel : Nat) (body : Stmt)      -- `while True: body` (at most `fuel` iterations, then stuck: termination is the caller's lemma)
   | cont                                 -- `continue`
   | brk                                  -- `break`
+  | forEach (v : Nat) (xs : Expr) (body : Stmt)   -- `for v in xs: body` over a list value (no `else` clause)
   | unsupported                         -- the translator met a construct outside the subset *inside an `if` arm* …
 
 /-! ### builtin calls -/
@@ -293,6 +294,16 @@ def iter {W : Type} (step : St W → Out × St W) : Nat → St W → Out × St W
     | (.brk, s1) => (.normal, s1)
     | r => r
 
+/-- `for x in xs:` – run `step x` for the elements in order; `break` ends the loop, `continue` goes on with the next element -/
+def iterList {W : Type} (step : Val → St W → Out × St W) : List Val → St W → Out × St W
+  | [], s => (.normal, s)
+  | x :: rest, s =>
+    match step x s with
+    | (.normal, s1) => iterList step rest s1
+    | (.cont, s1) => iterList step rest s1
+    | (.brk, s1) => (.normal, s1)
+    | r => r
+
 def excClass : Val → Option Nat
   | .exc c _ => some c
   | _ => none
@@ -307,6 +318,12 @@ def exec {W : Type} (ext : World W) : Stmt → St W → Out × St W
   | .cont, s => (.cont, s)
   | .brk, s => (.brk, s)
   | .loop fuel body, s => iter (exec ext body) fuel s
+  | .forEach v e body, s =>
+    match eval ext e s with
+    | .ok (.list vs) s1 => iterList (fun x st => exec ext body { st with loc := upd st.loc v x }) vs s1
+    | .ok _ _ => (.stuck, s)
+    | .exc x s1 => (.exc x, s1)
+    | .stuck => (.stuck, s)
   | .seq a b, s =>
     match exec ext a s with
     | (.normal, s1) => exec ext b s1
